@@ -8,7 +8,7 @@ for d in seeded/$PAT; do
   wt=/tmp/seedall-$id
   git -C /repo worktree add -q --detach $wt HEAD || continue
   if git -C $wt apply /verif/$d/patch.diff 2>/dev/null; then
-    VERIF_REPO=$wt timeout 3000 ./check $prop $TIER > /tmp/seedall-$id.log 2>&1; rc=$?
+    VERIF_NOEVIDENCE=1 VERIF_REPO=$wt timeout 3000 ./check $prop $TIER > /tmp/seedall-$id.log 2>&1; rc=$?
     git checkout -- evidence/$prop.json 2>/dev/null
     line="$id $prop rc=$rc violations=$(grep -c '^VIOLATION' /tmp/seedall-$id.log) inconclusive=$(grep -c '^INCONCLUSIVE' /tmp/seedall-$id.log) harness=$(grep -c '^HARNESS-ERROR' /tmp/seedall-$id.log) scenarios=$(grep -A1 '^VIOLATION' /tmp/seedall-$id.log | grep -o 'scenario=[a-z_0-9A-Z]*' | sort -u | tr '\n' ' ')"
   else
